@@ -133,19 +133,63 @@ func toRow(i Ineq) row {
 // feasibility; strict inequalities were tightened on construction).
 func (s System) Feasible() bool {
 	rows := make([]row, 0, len(s))
-	vars := map[string]bool{}
 	for _, i := range s {
 		rows = append(rows, toRow(i))
-		for v := range i.F.Coef {
-			vars[v] = true
+	}
+	rows = dedupe(rows)
+	// equalities first: a pair r, -r (same coefficients negated, constants negated) fixes a variable; substitute it
+	for {
+		ei, ej, v := findEquality(rows)
+		if ei < 0 {
+			break
+		}
+		eq := rows[ei]
+		var next []row
+		for k, r := range rows {
+			if k == ei || k == ej {
+				continue
+			}
+			next = append(next, substitute(r, eq, v))
+		}
+		rows = dedupe(next)
+		if infeasibleConst(rows) {
+			return false
 		}
 	}
-	var vs []string
-	for v := range vars {
-		vs = append(vs, v)
-	}
-	sort.Strings(vs)
-	for _, v := range vs {
+	for {
+		if infeasibleConst(rows) {
+			return false
+		}
+		// pick the variable whose elimination creates the fewest rows
+		best, bestCost := "", -1
+		count := map[string][2]int{}
+		for _, r := range rows {
+			for v, c := range r.c {
+				pc := count[v]
+				if c.Sign() > 0 {
+					pc[0]++
+				} else {
+					pc[1]++
+				}
+				count[v] = pc
+			}
+		}
+		var vs []string
+		for v := range count {
+			vs = append(vs, v)
+		}
+		sort.Strings(vs)
+		for _, v := range vs {
+			pc := count[v]
+			cost := pc[0]*pc[1] - pc[0] - pc[1]
+			if bestCost == -1 || cost < bestCost {
+				best, bestCost = v, cost
+			}
+		}
+		if best == "" {
+			break
+		}
+		v := best
 		var pos, neg, zero []row
 		for _, r := range rows {
 			c := r.c[v]
@@ -161,47 +205,150 @@ func (s System) Feasible() bool {
 		next := zero
 		for _, p := range pos {
 			for _, n := range neg {
-				// p: cp*v + P <= 0 (cp>0); n: cn*v + N <= 0 (cn<0)
-				// combine: (-cn)*p + cp*n eliminates v
-				cp, cn := p.c[v], n.c[v]
-				a := new(big.Rat).Neg(cn)
-				b := new(big.Rat).Set(cp)
-				nr := row{c: map[string]*big.Rat{}, k: new(big.Rat)}
-				nr.k.Add(new(big.Rat).Mul(a, p.k), new(big.Rat).Mul(b, n.k))
-				for s2, c := range p.c {
-					if s2 == v {
-						continue
-					}
-					nr.c[s2] = new(big.Rat).Mul(a, c)
-				}
-				for s2, c := range n.c {
-					if s2 == v {
-						continue
-					}
-					if nr.c[s2] == nil {
-						nr.c[s2] = new(big.Rat)
-					}
-					nr.c[s2].Add(nr.c[s2], new(big.Rat).Mul(b, c))
-				}
-				for s2, c := range nr.c {
-					if c.Sign() == 0 {
-						delete(nr.c, s2)
-					}
-				}
-				next = append(next, nr)
+				next = append(next, combine(p, n, v))
 			}
 		}
-		rows = next
+		rows = dedupe(next)
 		if len(rows) > 4000 {
 			return true // give up: treat as feasible (sound for "cannot prove")
 		}
 	}
+	return !infeasibleConst(rows)
+}
+
+func infeasibleConst(rows []row) bool {
 	for _, r := range rows {
 		if len(r.c) == 0 && r.k.Sign() > 0 {
-			return false
+			return true
 		}
 	}
-	return true
+	return false
+}
+
+// combine eliminates v from p (coefficient > 0) and n (coefficient < 0).
+func combine(p, n row, v string) row {
+	cp, cn := p.c[v], n.c[v]
+	a := new(big.Rat).Neg(cn)
+	b := new(big.Rat).Set(cp)
+	nr := row{c: map[string]*big.Rat{}, k: new(big.Rat)}
+	nr.k.Add(new(big.Rat).Mul(a, p.k), new(big.Rat).Mul(b, n.k))
+	for s2, c := range p.c {
+		if s2 == v {
+			continue
+		}
+		nr.c[s2] = new(big.Rat).Mul(a, c)
+	}
+	for s2, c := range n.c {
+		if s2 == v {
+			continue
+		}
+		if nr.c[s2] == nil {
+			nr.c[s2] = new(big.Rat)
+		}
+		nr.c[s2].Add(nr.c[s2], new(big.Rat).Mul(b, c))
+	}
+	for s2, c := range nr.c {
+		if c.Sign() == 0 {
+			delete(nr.c, s2)
+		}
+	}
+	return nr
+}
+
+func rowKey(r row) string {
+	var ks []string
+	for v := range r.c {
+		ks = append(ks, v)
+	}
+	sort.Strings(ks)
+	var sb strings.Builder
+	for _, v := range ks {
+		sb.WriteString(v)
+		sb.WriteByte('*')
+		sb.WriteString(r.c[v].RatString())
+		sb.WriteByte(' ')
+	}
+	return sb.String()
+}
+
+// dedupe drops rows that are trivially true and, among rows with the same left-hand side, keeps the tightest.
+func dedupe(rows []row) []row {
+	best := map[string]int{}
+	var out []row
+	for _, r := range rows {
+		if len(r.c) == 0 && r.k.Sign() <= 0 {
+			continue
+		}
+		k := rowKey(r)
+		if i, ok := best[k]; ok {
+			if r.k.Cmp(out[i].k) > 0 {
+				out[i] = r
+			}
+			continue
+		}
+		best[k] = len(out)
+		out = append(out, r)
+	}
+	return out
+}
+
+// findEquality: indices of two rows r, r' with r' = -r (an equality) and a variable to solve for.
+func findEquality(rows []row) (int, int, string) {
+	idx := map[string]int{}
+	for i, r := range rows {
+		idx[rowKey(r)] = i
+	}
+	for i, r := range rows {
+		if len(r.c) == 0 {
+			continue
+		}
+		neg := row{c: map[string]*big.Rat{}, k: new(big.Rat).Neg(r.k)}
+		for v, c := range r.c {
+			neg.c[v] = new(big.Rat).Neg(c)
+		}
+		j, ok := idx[rowKey(neg)]
+		if !ok || j == i || rows[j].k.Cmp(neg.k) != 0 {
+			continue
+		}
+		var vs []string
+		for v := range r.c {
+			vs = append(vs, v)
+		}
+		sort.Strings(vs)
+		return i, j, vs[0]
+	}
+	return -1, -1, ""
+}
+
+// substitute: eq is Σ c_s s + k == 0; replace v in r by its solution.
+func substitute(r, eq row, v string) row {
+	cv := r.c[v]
+	if cv == nil || cv.Sign() == 0 {
+		return r
+	}
+	// v = -(Σ_{s≠v} c_s s + k) / c_v(eq)
+	f := new(big.Rat).Quo(cv, eq.c[v])
+	nr := row{c: map[string]*big.Rat{}, k: new(big.Rat).Sub(r.k, new(big.Rat).Mul(f, eq.k))}
+	for s2, c := range r.c {
+		if s2 != v {
+			nr.c[s2] = new(big.Rat).Set(c)
+		}
+	}
+	for s2, c := range eq.c {
+		if s2 == v {
+			continue
+		}
+		if nr.c[s2] == nil {
+			nr.c[s2] = new(big.Rat)
+		}
+		nr.c[s2].Sub(nr.c[s2], new(big.Rat).Mul(f, c))
+	}
+	for s2, c := range nr.c {
+		if c.Sign() == 0 {
+			delete(nr.c, s2)
+		}
+	}
+	return nr
 }
 
 // Implies: premises ⊨ goal (over the integers; sound, may fail to prove).
